@@ -335,25 +335,32 @@ PermsValid(fk, Perms, P, meta) ==
              Eq(Slice(d, 8, 1), Lit(<<IF meta THEN ByteT ELSE ByteF>>))>>)
 
 -----------------------------------------------------------------------------
-(* which strings and streams are encrypted (ISO 32000-1 7.6.1): everything except the strings of  *)
-(* the Encrypt dictionary, the trailer ID, cross-reference streams, and the document metadata      *)
-(* stream when EncryptMetadata is false.  Strings inside a stream's dictionary are strings.        *)
+(* which strings and streams are encrypted (ISO 32000-1 7.6.1, ISO 32000-2 7.6.2): everything except the strings  *)
+(* of the Encrypt dictionary, the trailer ID, cross-reference streams, the document metadata stream when             *)
+(* EncryptMetadata is false, and the Contents string of a signature dictionary (the signature value is computed      *)
+(* over the file as written and stored as it is).  Strings inside a stream's dictionary are strings.  From V 4 on a   *)
+(* stream whose Filter names Crypt uses the crypt filter its decode parameters name instead of StmF - Identity        *)
+(* when there are no parameters (no DecodeParms, a null entry, no Name): "stream.cryptid" is not encrypted; below     *)
+(* V 4 there are no crypt filters and it is a stream like any other.                                                 *)
 ItemKinds == {"str.dict", "str.nested", "str.top", "str.streamdict", "stream", "stream.meta",
-              "stream.xref", "str.encdict", "str.id"}
-IsStringKind(k) == k \in {"str.dict", "str.nested", "str.top", "str.streamdict", "str.encdict", "str.id"}
+              "stream.xref", "str.encdict", "str.id", "str.sigcontents", "stream.cryptid"}
+IsStringKind(k) == k \in {"str.dict", "str.nested", "str.top", "str.streamdict", "str.encdict", "str.id", "str.sigcontents"}
 IsoSubject(k, meta) ==
-    CASE k \in {"stream.xref", "str.encdict", "str.id"} -> FALSE
+    CASE k \in {"stream.xref", "str.encdict", "str.id", "str.sigcontents"} -> FALSE
       [] k = "stream.meta" -> meta
       [] OTHER -> TRUE
+\* ... for a configuration c
+Subject(c, k) == IF k = "stream.cryptid" THEN c.V < 4 ELSE IsoSubject(k, c.meta)
 
 -----------------------------------------------------------------------------
 (* configurations of the standard security handler *)
-\* [R, V, bits, meta, stmf, strf]; stmf/strf in {"V2" (RC4), "AESV2", "AESV3"}
+\* [R, V, bits, meta, stmf, strf]; stmf/strf = the method of the crypt filter StmF / StrF name: "V2" (RC4), "AESV2",
+\* "AESV3", or "Identity" (the standard crypt filter that passes data through; also the default of StmF / StrF)
 ValidCfg(c) ==
     CASE c.R = 2 -> c.V = 1 /\ c.bits = 40 /\ c.meta /\ c.stmf = "V2" /\ c.strf = "V2"
       [] c.R = 3 -> c.V = 2 /\ c.bits \in {40 + 8 * i : i \in 0..11} /\ c.meta /\ c.stmf = "V2" /\ c.strf = "V2"
-      [] c.R = 4 -> c.V = 4 /\ c.bits = 128 /\ c.stmf \in {"V2", "AESV2"} /\ c.strf \in {"V2", "AESV2"}
-      [] c.R \in {5, 6} -> c.V = 5 /\ c.bits = 256 /\ c.stmf = "AESV3" /\ c.strf = "AESV3"
+      [] c.R = 4 -> c.V = 4 /\ c.bits = 128 /\ c.stmf \in {"V2", "AESV2", "Identity"} /\ c.strf \in {"V2", "AESV2", "Identity"}
+      [] c.R \in {5, 6} -> c.V = 5 /\ c.bits = 256 /\ c.stmf \in {"AESV3", "Identity"} /\ c.strf \in {"AESV3", "Identity"}
       [] OTHER -> FALSE
 (* The Length entry of the encryption dictionary (Table 20): "only if V is 2 or 3", a multiple of 8 in 40..128,  *)
 (* default 40.  For the other values of V the key length is fixed by V (1: 40 bits, 4: 128 bits, 5: 256 bits) and  *)
@@ -377,6 +384,29 @@ LenClass(c, len) == IF len = CanonLength(c) THEN "none"
                     ELSE "V" \o ToString(c.V) \o "." \o (IF len = -1 THEN "absent" ELSE ToString(len))
 
 MethodOf(c, kind) == IF IsStringKind(kind) THEN c.strf ELSE c.stmf
+
+(* Other legal FORMS of the same encryption dictionary (one deviation from the canonical form at a time):            *)
+(*   "em.false"     V < 4 with /EncryptMetadata false - the entry is "meaningful only when the value of V is 4 or 5"  *)
+(*   "enc.direct"   the trailer's Encrypt entry is the dictionary itself, not a reference to it                      *)
+(*   "stmf.absent" / "strf.absent"   V >= 4, the filter is Identity by default ("Default value: Identity")           *)
+(* Entries = the entries in question as written; IsoView = what a reader following the standard takes from them.      *)
+Forms(c) == {"canon", "enc.direct"} \cup (IF c.V < 4 THEN {"em.false"} ELSE {})
+            \cup (IF c.V >= 4 /\ c.stmf = "Identity" THEN {"stmf.absent"} ELSE {})
+            \cup (IF c.V >= 4 /\ c.strf = "Identity" THEN {"strf.absent"} ELSE {})
+Entries(c, f) ==
+    [enc  |-> IF f = "enc.direct" THEN "direct" ELSE "indirect",
+     em   |-> IF f = "em.false" THEN "false" ELSE IF c.V < 4 THEN "absent" ELSE IF c.meta THEN "true" ELSE "false",
+     stmf |-> IF c.V < 4 \/ f = "stmf.absent" THEN "absent" ELSE c.stmf,
+     strf |-> IF c.V < 4 \/ f = "strf.absent" THEN "absent" ELSE c.strf]
+IsoView(V, e) ==
+    [seen |-> TRUE,
+     meta |-> IF V < 4 THEN TRUE ELSE e.em # "false",
+     stmf |-> IF V < 4 THEN "V2" ELSE IF e.stmf = "absent" THEN "Identity" ELSE e.stmf,
+     strf |-> IF V < 4 THEN "V2" ELSE IF e.strf = "absent" THEN "Identity" ELSE e.strf]
+FormClass(c, f) == IF f = "canon" THEN "none" ELSE "V" \o ToString(c.V) \o "." \o f
+\* optional content of a document (at most one per generated document): a signature dictionary; streams with a
+\* Crypt filter without parameters
+Features == {"none", "sig", "crypt"}
 
 \* P as a signed 32-bit integer: all bits 1 except bits 1-2 (reserved 0) and the permission bits switched off
 \* (bit positions counted from 1 as in Table 22; off \subseteq {3,4,5,6,9,10,11,12})
